@@ -26,7 +26,8 @@ open MM MM.C05
 theorem C06_constants_tie :
     Gen.C06.maxRoutesPerAdvertise = 255 ∧ Gen.C06.advertiseHeadroom = headroom ∧
     Gen.C06.budgetIsPayloadMinusHeadroomMinusFixed = true ∧
-    Gen.C06.splitClosesGroupOnCountOrSize = true ∧ Gen.C06.announceAndFullTableSplit = true := by
+    Gen.C06.splitClosesGroupOnCountOrSize = true ∧ Gen.C06.announceAndFullTableSplit = true ∧
+    Gen.C06.withdrawSplits = true := by
   decide
 
 /-- **Full statement for one route list** (origination and replay): every frame is delivered and
@@ -165,6 +166,83 @@ theorem C06_single_advertisement_refuted : ¬ C06_statement_unsplit := by
         injection hl with hl
         have hlt := single_advertisement_lt_256 q a ha
         have hlen : es'.length ≤ a.2.2.2.1.length := by
+          rw [← hl]; exact List.length_filterMap_le _ _
+        have h256 : witnessEntries.length = 256 := by simp [witnessEntries]
+        injection hr with hr
+        subst hr
+        rw [← this] at h256
+        simp at h256
+        omega
+    · cases this
+
+/-! ### withdrawals -/
+
+/-- `WithdrawLocalRoutes` (fixed): for ANY number of local CIDR routes every ROUTE_WITHDRAW frame
+    is deliverable and decodable and the neighbour is told to remove exactly the withdrawn
+    networks, in order. -/
+theorem C06_withdraw_intact (self : Bytes) (hself : self.length = 16) (seq0 : Nat) (es : List Entry)
+    (hes : es.all entryWF = true) (hc : es.all isCidr = true)
+    (hseq : seq0 + es.length + 2 ≤ 2 ^ 64) :
+    withdrawAll (withdrawLocal self seq0 es) = some es := by
+  have hmp : maxPayload = 16384 := rfl
+  have hh : headroom = 1024 := rfl
+  have hfix := withdrawFixed_eq self hself
+  have hsize : ∀ r ∈ es.map toRoute, routeSize r ≤ 516 := by
+    intro r hr
+    obtain ⟨e, he, rfl⟩ := List.mem_map.mp hr
+    exact toRoute_size e (List.all_eq_true.mp hes e he)
+  have hwf : ∀ r ∈ es.map toRoute, wdRouteC.wf r = true := by
+    intro r hr
+    obtain ⟨e, he, rfl⟩ := List.mem_map.mp hr
+    exact toRoute_wdwf e (List.all_eq_true.mp hes e he) (List.all_eq_true.mp hc e he)
+  have hgroups := splitRoutes_groups (withdrawBudget self) 516 (es.map toRoute) hsize
+  have hbud : withdrawFixed self + max (withdrawBudget self) 516 ≤ maxPayload := by
+    have : withdrawBudget self = maxPayload - headroom - withdrawFixed self := rfl
+    rw [this, Nat.max_def]
+    split <;> omega
+  have hcount := splitRoutes_length_le (withdrawBudget self) (es.map toRoute)
+  unfold withdrawLocal
+  rw [withdrawAll_go self hself _ (seq0 + 1) (by simp at hcount; omega)]
+  · rw [splitRoutes_flatten, filterMap_toIPNet_toRoute es hes hc]
+  · intro g hg
+    have := hgroups g hg
+    refine ⟨this.1, ?_, by omega⟩
+    exact List.all_eq_true.mpr fun r hr => hwf r (splitRoutes_mem _ _ g hg r hr)
+
+/-- No single ROUTE_WITHDRAW can name 256 or more routes. -/
+theorem single_withdraw_lt_256 (payload : Bytes) (w : RouteWd)
+    (h : decodeRouteWithdraw payload = some w) : w.2.2.1.length < 256 := by
+  have hw := decodeTop_wf routeWithdraw_decwf 26 payload w h
+  simp only [routeWithdrawC, C05.seq, Bool.and_eq_true] at hw
+  have := hw.2.2.1
+  simp only [listN, Bool.and_eq_true, decide_eq_true_eq] at this
+  simpa using this.1
+
+def C06_withdraw_statement_unsplit : Prop :=
+  ∀ (self : Bytes) (seq0 : Nat) (es : List Entry), self.length = 16 → es.all entryWF = true →
+    es.all isCidr = true → seq0 + es.length + 2 ≤ 2 ^ 64 →
+    withdrawAll (withdrawUnsplit self seq0 es) = some es
+
+/-- The pinned `WithdrawLocalRoutes` (one message whatever the size) cannot withdraw 256 routes. -/
+theorem C06_single_withdraw_refuted : ¬ C06_withdraw_statement_unsplit := by
+  intro h
+  have hwf : witnessEntries.all entryWF = true := by simp [witnessEntries, entryWF]
+  have hc : witnessEntries.all isCidr = true := by simp [witnessEntries, isCidr]
+  have := h (List.replicate 16 1) 0 witnessEntries (by simp) hwf hc (by simp [witnessEntries])
+  simp only [withdrawUnsplit, withdrawAll] at this
+  split at this
+  · cases this
+  · next q hq =>
+    split at this
+    · next es' rest hl hr =>
+      injection this with this
+      unfold learnWithdraw at hl
+      split at hl
+      · cases hl
+      · next w hw =>
+        injection hl with hl
+        have hlt := single_withdraw_lt_256 q w hw
+        have hlen : es'.length ≤ w.2.2.1.length := by
           rw [← hl]; exact List.length_filterMap_le _ _
         have h256 : witnessEntries.length = 256 := by simp [witnessEntries]
         injection hr with hr
